@@ -1,2 +1,6 @@
 -- Root of the `MG` library: models (Core), generated files (Gen) and proofs (Proofs).
 import MG.Core.Ctx
+import MG.Core.Dtype
+import MG.Core.Nnet
+import MG.Core.Lock
+import MG.Core.Linear
